@@ -60,7 +60,12 @@ def remove_mm_fields_if_present(raw_block_hex, leave_btcblock=True, hex=True):
     else:
         block_without_mm_fields = block if leave_btcblock else block[:-1]
 
-    block_without_mm_fields_rlp = rlp.encode(block_without_mm_fields)
+    # (a header that decodes can still fail to re-encode, e.g. a field
+    # holding lists nested beyond the interpreter's recursion limit)
+    try:
+        block_without_mm_fields_rlp = rlp.encode(block_without_mm_fields)
+    except Exception as e:
+        raise ValueError(e)
 
     if not hex:
         return block_without_mm_fields_rlp
